@@ -242,19 +242,23 @@ func c15Inotify(a *An) *inotifyTables {
 			if !isUintType(arg.Type()) {
 				continue
 			}
-			if _, isPhi := stripConv(arg).(*ssa.Phi); !isPhi {
-				if _, isBin := stripConv(arg).(*ssa.BinOp); !isBin {
+			// the chain may be built in place (a local variable) or returned by a helper function
+			rv, rc := v.Ctx.resolve(stripConv(arg))
+			if _, isPhi := rv.(*ssa.Phi); !isPhi {
+				if _, isBin := rv.(*ssa.BinOp); !isBin {
 					continue
 				}
 			}
-			rows, err := rowsForValue(a, vi, v.Ctx, arg)
+			rows, err := rowsForValue(a, vi, rc, rv)
 			if err != nil || len(rows) < 3 {
-				if err != nil && req == nil && strings.Contains(fmt.Sprint(arg.Type()), "uint32") && v.Ctx.Fn.Parent() == addWith {
-					req = &extracted{fn: v.Ctx.Fn, probs: []string{err.Error()}}
+				if err != nil && req == nil && strings.Contains(fmt.Sprint(arg.Type()), "uint32") && (rc.Fn.Parent() == addWith || rc.Fn == addWith || rc.Parent != nil) {
+					if cal := v.Ctx.calleeOf(&call.Call); cal != nil && a.P.inMain(cal) {
+						req = &extracted{fn: rc.Fn, probs: []string{err.Error()}}
+					}
 				}
 				continue
 			}
-			req = &extracted{fn: v.Ctx.Fn, rows: rows}
+			req = &extracted{fn: rc.Fn, rows: rows}
 		}
 	}
 	if req == nil {
